@@ -1,0 +1,83 @@
+/*
+ * Verification facade (feature `verif`, off by default, add-only).
+ *
+ * Lets an out-of-crate harness drive the crate-private codec, validators, alias resolvers,
+ * protocol engine and client state machine through a line protocol: one request line in, one
+ * response line out, everything in a neutral textual representation (see `text.rs`).  Every call is
+ * wrapped in `catch_unwind` so that a panic inside the library is reported as `res=panic:<message>`.
+ */
+
+mod text;
+mod codec;
+
+use std::panic::{catch_unwind, AssertUnwindSafe};
+
+/// Holds all state a sequence of requests may refer to.
+pub struct Session {
+    alias: codec::AliasSession,
+}
+
+impl Default for Session {
+    fn default() -> Self {
+        Self::new()
+    }
+}
+
+fn split_request(line: &str) -> (&str, &str, &str) {
+    // `<verb> <args...> | <payload>`
+    let (head, payload) = match line.find(" | ") {
+        Some(pos) => (&line[..pos], &line[pos + 3..]),
+        None => (line, ""),
+    };
+    let verb = head.split(' ').next().unwrap_or("");
+    (verb, head, payload)
+}
+
+impl Session {
+    /// Creates an empty session.
+    pub fn new() -> Session {
+        Session { alias: codec::AliasSession::new() }
+    }
+
+    /// Silences the default panic hook (panics are reported in-band).
+    pub fn install_quiet_panic_hook() {
+        std::panic::set_hook(Box::new(|_| {}));
+    }
+
+    fn dispatch_inner(&mut self, line: &str) -> Result<String, String> {
+        let (verb, head, payload) = split_request(line);
+        match verb {
+            "encode" => codec::cmd_encode(head, payload),
+            "decode" => codec::cmd_decode(head),
+            "validate.out" => codec::cmd_validate_outbound(payload),
+            "validate.outint" => codec::cmd_validate_outbound_internal(head, payload),
+            "validate.in" => codec::cmd_validate_inbound_internal(head, payload),
+            "vli.size" => codec::cmd_vli_size(head),
+            "vli.dec" => codec::cmd_vli_decode(head),
+            "policy" => codec::cmd_policy(head, payload),
+            "table" => codec::cmd_table(head),
+            "roundtrip" => Ok(text::print_packet(&text::parse_packet(payload)?)),
+            v if v.starts_with("alias.") => codec::cmd_alias(&mut self.alias, v, head),
+            _ => Err(format!("unknown verb {}", verb)),
+        }
+    }
+
+    /// Executes one request line and returns one response line.
+    pub fn dispatch(&mut self, line: &str) -> String {
+        let result = catch_unwind(AssertUnwindSafe(|| self.dispatch_inner(line)));
+        match result {
+            Ok(Ok(response)) => response,
+            Ok(Err(message)) => format!("res=bad-request {}", message.replace('\n', " ")),
+            Err(payload) => {
+                let message = if let Some(s) = payload.downcast_ref::<&str>() {
+                    s.to_string()
+                } else if let Some(s) = payload.downcast_ref::<String>() {
+                    s.clone()
+                } else {
+                    "unknown panic payload".to_string()
+                };
+                format!("res=panic:{}", message.replace(['\n', ' '], "_"))
+            }
+        }
+    }
+}
